@@ -547,9 +547,13 @@ func (l *loopState) notifySteps() { //nolint:gocognit
 		// untypedInputData stores the resolved data
 		untypedInputData, err := l.resolveExpressions(inputData, l.data)
 		if err != nil {
-			// An error here often indicates a locking issue in a step provider. This could be caused
-			// by the lock not being held when the output was marked resolved.
-			panic(fmt.Errorf("cannot resolve expressions for %s (%w)", nodeID, err))
+			// The expression cannot be evaluated on the data the steps produced (for example an index
+			// out of range or a failing conversion function). This ends the run with an error; it must
+			// not take the whole process down from a step's goroutine.
+			l.logger.Errorf("Cannot resolve expressions for %s (%v)", nodeID, err)
+			l.recentErrors <- fmt.Errorf("cannot resolve expressions for %s (%w)", nodeID, err)
+			l.cancel()
+			return
 		}
 
 		// This switch checks to see if it's a node that needs to be run.
